@@ -117,7 +117,8 @@ func TLC(o TLCOpts) (*TLCResult, error) {
 	if o.Timeout == 0 {
 		o.Timeout = 10 * time.Minute
 	}
-	args := []string{"-XX:+UseParallelGC", fmt.Sprintf("-Xmx%dm", o.HeapMB), "-Xss64m"}
+	// TLC unpacks its standard modules into java.io.tmpdir on every run and leaves them there: keep that inside the scratch dir
+	args := []string{"-XX:+UseParallelGC", fmt.Sprintf("-Xmx%dm", o.HeapMB), "-Xss64m", "-Djava.io.tmpdir=" + scratch}
 	if o.DFS {
 		args = append(args, "-Dtlc2.tool.queue.IStateQueue=StateDeque")
 	}
@@ -253,7 +254,7 @@ func Sany(module string) error {
 			_ = os.WriteFile(filepath.Join(scratch, e.Name()), b, 0o644)
 		}
 	}
-	cmd := exec.Command("java", "-cp", tlaJar, "tla2sany.SANY", module+".tla")
+	cmd := exec.Command("java", "-Djava.io.tmpdir="+scratch, "-cp", tlaJar, "tla2sany.SANY", module+".tla")
 	cmd.Dir = scratch
 	out, err := cmd.CombinedOutput()
 	if err != nil || bytes.Contains(out, []byte("*** Errors")) || bytes.Contains(out, []byte("Fatal errors")) {
